@@ -272,6 +272,57 @@ func checkC06(e *Engine, r *Report) {
 		}))
 		r.Check(guardsNextOnEth(fn, g, false), eoa.Name()+" › sender has no code", e.Pos(fn.Pos()), "next() only when IsEmptyCodeHash(GetCodeHash(ctx, msg.From))", "next() is reachable on the Ethereum lane for a sender with contract code (EIP-3607 check missing or on the wrong address)")
 	})
+
+	r.Rule("R6", "MUST-PASS", "exactly once: the message server has undone the ante handler's nonce increment, so every state transition that returns a result (and lets the fee stand) re-applies it: the call path sets nonce+1 itself; the create path relies on evm.Create, which increments the nonce only after its own balance check — therefore the transition's value-affordability check (clause 6: value > 0 ∧ !CanTransfer ⇒ consensus error) must dominate evm.Create and evm.Call for creations and calls alike", 3, func() {
+		td := e.Fn(pkgEvmKeeper, "StateTransition.TransitionDb")
+		creates := callsTo(td, false, CallSpec{pkgGethVM, "EVM", "Create"})
+		calls := callsTo(td, false, CallSpec{pkgGethVM, "EVM", "Call"})
+		if len(creates) != 1 || len(calls) != 1 {
+			r.Bad("TransitionDb › EVM entry points", e.Pos(td.Pos()), "expected one evm.Create and one evm.Call")
+			return
+		}
+		// guards: value.Sign() > 0 is false, or CanTransfer(...) is true
+		var gs []Guard
+		for _, i := range ifs(td) {
+			b, ok := i.Cond.(*ssa.BinOp)
+			if !ok || b.Op != token.GTR {
+				continue
+			}
+			c, _ := callOf(b.X)
+			k, isK := constInt(b.Y)
+			if c != nil && isK && k == 0 && isCallTo(c, CallSpec{pkgBig, "Int", "Sign"}) && sliceFrom(c.Call.Args[0]).Has(func(v ssa.Value) bool {
+				cc, isC := v.(*ssa.Call)
+				return isC && isMethodNamed(cc, "Value")
+			}) {
+				gs = append(gs, Guard{If: i, Survive: 1})
+			}
+		}
+		for _, g := range boolCallGuards(td, true, func(c *ssa.Call) bool {
+			fv := fieldVarOfLoad(c.Call.Value)
+			return fv != nil && fv.Name() == "CanTransfer"
+		}) {
+			if failEdgeReturnsError(td, g, func(i ssa.Instruction) bool {
+				return i == creates[0].(ssa.Instruction) || i == calls[0].(ssa.Instruction)
+			}) {
+				gs = append(gs, g)
+			}
+		}
+		r.Check(mustPass(td, creates[0], gs), "x/evm/keeper.StateTransition.TransitionDb › value affordability checked before evm.Create", e.Pos(creates[0].Pos()), "value <= 0 or CanTransfer(from, value) dominates the creation", "a contract creation whose value the sender cannot afford reaches evm.Create, which fails before incrementing the nonce: the transaction is accepted (fee charged, failed receipt) without consuming its nonce, so the same signed bytes can be included again and again")
+		r.Check(mustPass(td, calls[0], gs), "x/evm/keeper.StateTransition.TransitionDb › value affordability checked before evm.Call", e.Pos(calls[0].Pos()), "value <= 0 or CanTransfer(from, value) dominates the call", "a call whose value the sender cannot afford is executed")
+		// the call path re-applies the nonce itself, before the call
+		sn := callsIn(td, false, func(c ssa.CallInstruction) bool { return isMethodNamed(c, "SetNonce") })
+		okN := len(sn) == 1 && dominatesInstr(sn[0].(ssa.Instruction), calls[0].(ssa.Instruction))
+		if okN {
+			b, isB := resolveLocal(sn[0].Common().Args[len(sn[0].Common().Args)-1]).(*ssa.BinOp)
+			okN = isB && b.Op == token.ADD
+			if okN {
+				k, isK := constInt(b.Y)
+				g, _ := callOf(b.X)
+				okN = isK && k == 1 && g != nil && isMethodNamed(g, "GetNonce")
+			}
+		}
+		r.Check(okN, "x/evm/keeper.StateTransition.TransitionDb › call path sets nonce+1 before evm.Call", e.Pos(td.Pos()), "SetNonce(from, GetNonce(from)+1) dominates evm.Call", "a message call does not consume the sender's nonce")
+	})
 }
 
 func checkNoncePair(e *Engine, r *Report, inc *Decorator) {
